@@ -290,7 +290,16 @@ class Interp:
         res, abn = self.seq([e['l'], e['r']], st)
         outs = []
         for (a, b), s in res:
-            outs.append(Out('val', bin_term(op, a, b), s))
+            done = False
+            if e.get('callee'):
+                # overloaded operator: a rule may supply the semantics of the impl it resolved to
+                for sm in self.summaries:
+                    r = sm(self, e['callee'] + '#' + op, [a, b], e, s)
+                    if r is not None:
+                        outs.extend(r); done = True
+                        break
+            if not done:
+                outs.append(Out('val', bin_term(op, a, b), s))
         return outs + abn
 
     def ev_Field(self, e, st):
@@ -838,7 +847,7 @@ class Interp:
                 kn = st.known(('bin', 'Eq', v, pv))
                 if kn is not None:
                     return [('yes' if kn else 'no', st)]
-                return [('maybe', st)]
+                return [('maybe', st.assume(('bin', 'Eq', v, pv), True))]
             var = hirq.short_def(pe.get('ctor_of') or pe.get('def') or pe.get('text', '?'))
             if pe.get('defkind', '').startswith('Ctor') and v[0] != 'ctor':
                 kt = st.variant_test(v, var, self.siblings(pe))
@@ -1149,7 +1158,7 @@ def builtin_summary(I, cal, args, node, st):
         return [Out('val', ('enumerate', args[0]), st)]
     if cal == 'core::iter::traits::iterator::Iterator::collect' and args:
         return [Out('val', args[0], st)]
-    if (cal.endswith('alloc::vec::Vec::<T, A>::pop') or cal.endswith('IntoIter<T, A> as core::iter::traits::iterator::Iterator>::next')
+    if (cal.endswith('alloc::vec::Vec::<T, A>::pop') or cal.endswith(' as core::iter::traits::iterator::Iterator>::next')
             or cal == 'core::iter::traits::iterator::Iterator::next') and args:
         base = args[0]
         key = ('cursor', base)
